@@ -48,6 +48,9 @@ def run(chk):
         "random interleavings of predict (possibly empty) / skip_epochs / wasted / idle_tracks / clear_wasted / "
         "set_auto_waste / active+wasted statistics / current_epoch over 1-4 scenes, max_idle 0-3, periodicity {0,1,2,100}, "
         "shards 1-4, Sort and BatchSort; exact model replay + ledger oracle + paired runs under all four periodicities. "
+        "The model's auto-waste prologue (counter test/update: gen/ScalarTracker.v auto_waste_prologue_sort / _batch_sort) and its "
+        "expiry comparison (gen/ScalarGate.v baked_wasted_cmp, from EpochDb::baked) are TRANSLATED from the Rust source on every run "
+        "and enter the proofs only through TrackerScalarProofs.auto_waste_prologue_spec / baked_wasted_cmp_spec. "
         "non-trivial = at least one track expires while still uncollected in the live store AND an observing operation "
         "runs before it is collected; distinct by hash of (config, op list)",
         lambda cl: cl["gc_observed"])
